@@ -4,7 +4,8 @@
 // hooked element type, every element assignment of the destructor's zeroing sweep (the hook is harness code: it only
 // makes a pre-emption inside the sweep schedulable; the library is untouched).
 //
-// stdin :  <case-id> <kind> <seed> <strategy> <pre> <nfree> <xadds> <bwarm> <cwarm> <vals-B> <vals-C>
+// stdin :  <case-id> <kind> <seed> <strategy> <pre> <nfree> <xadds> <bwarm> <cwarm> <vals-B> <vals-C> <choices>
+//   strategy 2 replays <choices> (comma separated, "-" none): index into [current, other runnable threads...] at each point
 //   kind   H CompactEnumerableThreadLocal<Hooked,1,true> | A ConcurrentAdder | X ConcurrentMaxer
 //   pre    instances constructed (and kept) before X ; nfree instances constructed and destroyed before X (free list)
 //   xadds  1: thread A counts into X before destroying it
@@ -69,7 +70,7 @@ static std::vector<ll> parse_vals(const std::string& s) {
 
 template <class Tr>
 static void run_case(const char* id, unsigned long long seed, int strategy, int pre, int nfree, int xadds, int bwarm, int cwarm,
-                     const std::vector<ll>& vb, const std::vector<ll>& vc) {
+                     const std::vector<ll>& vb, const std::vector<ll>& vc, const std::vector<ll>& choices) {
   typedef typename Tr::Obj Obj;
   std::vector<Obj*> keep;
   Obj* V = new Obj();                       // long-lived neighbour, shares cache lines with X / Y
@@ -105,6 +106,7 @@ static void run_case(const char* id, unsigned long long seed, int strategy, int 
   opt.seed = seed;
   opt.strategy = strategy;
   opt.max_steps = 200000;
+  for (ll c : choices) opt.choices.push_back((int)c);
   verif::Result r = verif::run(bodies, opt);
   // quiescent: everything joined
   ll got_y = Y ? Tr::read(*Y) : 0, got_v = Tr::read(*V);
@@ -124,18 +126,19 @@ int main() {
   static char line[1 << 16];
   while (fgets(line, sizeof line, stdin)) {
     std::stringstream ss(line);
-    std::string id, kind, sb, sc;
+    std::string id, kind, sb, sc, sch = "-";
     unsigned long long seed;
     int strategy, pre, nfree, xadds, bwarm, cwarm;
     if (!(ss >> id >> kind >> seed >> strategy >> pre >> nfree >> xadds >> bwarm >> cwarm >> sb >> sc)) continue;
+    ss >> sch;
     fflush(stdout);
     pid_t pid = fork();
     if (pid == 0) {
-      auto vb = parse_vals(sb), vc = parse_vals(sc);
+      auto vb = parse_vals(sb), vc = parse_vals(sc), ch = parse_vals(sch);
       switch (kind[0]) {
-        case 'H': run_case<TrH>(id.c_str(), seed, strategy, pre, nfree, xadds, bwarm, cwarm, vb, vc); break;
-        case 'A': run_case<TrA>(id.c_str(), seed, strategy, pre, nfree, xadds, bwarm, cwarm, vb, vc); break;
-        case 'X': run_case<TrX>(id.c_str(), seed, strategy, pre, nfree, xadds, bwarm, cwarm, vb, vc); break;
+        case 'H': run_case<TrH>(id.c_str(), seed, strategy, pre, nfree, xadds, bwarm, cwarm, vb, vc, ch); break;
+        case 'A': run_case<TrA>(id.c_str(), seed, strategy, pre, nfree, xadds, bwarm, cwarm, vb, vc, ch); break;
+        case 'X': run_case<TrX>(id.c_str(), seed, strategy, pre, nfree, xadds, bwarm, cwarm, vb, vc, ch); break;
         default: printf("%s badkind\n", id.c_str());
       }
       fflush(stdout);
